@@ -62,9 +62,11 @@ example :
 
 /-- Main theorem: every well-formed document, rendered in any layout the format allows
     (LF or CRLF per line, empty lines before, after and between paragraphs, comment
-    lines, any of the four paddings after the colon, trailing blanks, blank or tab as
-    continuation marker, with or without the final line terminator), is read back as
-    exactly its paragraphs, in order, with exactly the expected values. -/
+    lines, any of the four paddings after the colon, white space at the end of a line —
+    blanks, tab, VT, FF and the Unicode white-space runes U+0085, U+00A0, U+2003, U+2028,
+    U+3000 —, blank or tab as continuation marker, with or without the final line
+    terminator), is read back as exactly its paragraphs, in order, with exactly the
+    expected values. -/
 theorem C07_read_render (d : Doc) (cs : Choices) (h : wfDoc d = true) :
     all (render d cs) = .ok (d.map expectedPara) :=
   Lemmas.Deb822ReadNext.all_read_render d cs h
@@ -89,6 +91,22 @@ example :
       [⟨[B "Package", B "Description"],
         [(B "Package", B "hello"), (B "Description", B "short text\nlong line\n\n indented\n")]⟩,
        ⟨[B "Empty", B "Multi"], [(B "Empty", []), (B "Multi", B "a\n")]⟩] := by
+  decide +kernel
+
+/-- Unicode white space at the end of a line is removed like a blank: the field's own line
+    ends in U+2003 (EM SPACE), the continuation line "more" ends in U+00A0 (NO-BREAK SPACE)
+    in front of CR LF, and the " ." line is followed by U+3000 (IDEOGRAPHIC SPACE); the
+    document reads back as the expected paragraph, the empty logical line included.
+    Choices: 7, 5 and 9 select those alternatives of `trailing`. -/
+example :
+    let B := Bytes.ofString
+    let d : Doc := [[⟨B "F", B "v", [B "more", []]⟩]]
+    let cs : Choices := [0, 0, 0, 7, 0, 0, 0, 5, 1, 0, 0, 9, 0, 0, 0]
+    wfDoc d = true ∧
+    render d cs = B "F: v" ++ [226, 128, 131] ++ B "\n more" ++ [194, 160] ++ B "\r\n ." ++
+      [227, 128, 128] ++ B "\n" ∧
+    d.map expectedPara = [⟨[B "F"], [(B "F", B "v\nmore\n\n")]⟩] ∧
+    all (render d cs) = .ok [⟨[B "F"], [(B "F", B "v\nmore\n\n")]⟩] := by
   decide +kernel
 
 /-- The empty document is well-formed; its renderings are runs of empty lines (here LF,
